@@ -3,3 +3,4 @@ pub mod chacha;
 pub mod poly1305;
 pub mod big;
 pub mod ed25519;
+pub mod sha512;
